@@ -255,12 +255,59 @@ def _hand_mutation_check(tier):
     return n, out
 
 
+def _driver_loop_check(tier):
+    """the driver's own stage loop (tools/c18_driver_probe.py, one subprocess per language x --transformations value): the
+    real hephaestus.gen_program through --replay on hand-built programs, one of which gives the erasure nothing to erase;
+    a failed record = an exception escaped a stage"""
+    import json
+    import subprocess
+    n, out = 0, []
+    repo = os.environ.get('HEPH_REPO', '/repo')
+    langs = ('kotlin', 'java', 'groovy', 'scala')
+    ts = (0, 1, 2, 3) if tier != 'quick' else (0, 2)
+    procs = []
+    for lang in langs:
+        for t in ts:
+            procs.append((lang, t, subprocess.Popen(
+                [sys.executable, os.path.join(HERE, 'tools', 'c18_driver_probe.py'), repo, lang, str(t)],
+                stdout=subprocess.PIPE, stderr=subprocess.STDOUT, text=True, env=dict(os.environ, PYTHONHASHSEED='0'))))
+    for lang, t, p in procs:
+        try:
+            txt = p.communicate(timeout=600)[0]
+        except subprocess.TimeoutExpired:
+            p.kill()
+            out.append(dict(check='bounded[driver-loop:no-termination]', function='hephaestus.gen_program', lang=lang, t=t,
+                            actual='no result after 600 s'))
+            continue
+        line = next((l for l in txt.splitlines() if l.startswith('PROBE ')), None)
+        if line is None:
+            out.append(dict(check='bounded[driver-loop:harness]', function='hephaestus.gen_program', lang=lang, t=t,
+                            actual=txt[-300:]))
+            continue
+        d = json.loads(line[6:])
+        n += d.get('runs', 0)
+        if d.get('harness_error'):
+            out.append(dict(check='bounded[driver-loop:harness]', function='hephaestus.gen_program', lang=lang, t=t,
+                            actual=d['harness_error'][-300:]))
+        for f in d.get('failed', []):
+            out.append(dict(check='bounded[driver-loop:stage-raises]', function='hephaestus.gen_program', lang=lang, t=t,
+                            program=f['program'], actual=f['error']))
+    # one witness per check name
+    seen, uniq = set(), []
+    for v in out:
+        if v['check'] not in seen:
+            seen.add(v['check'])
+            uniq.append(v)
+    return n, uniq
+
+
 def bounded(tier, seed, stop_first=False):
     r = _b.bounded(tier, seed, stop_first)
     n, extra = _get_types_check()
     n3, extra3 = _word_pool_check()
     n4, extra4 = _hand_mutation_check(tier)
-    n, extra = n + n3 + n4, extra + extra3 + extra4
+    n5, extra5 = _driver_loop_check(tier)
+    n, extra = n + n3 + n4 + n5, extra + extra3 + extra4 + extra5
     r['evaluations'] = r.get('evaluations', 0) + n
     r.setdefault('violations', []).extend(extra)
     return r
@@ -272,6 +319,11 @@ def replay(payload):
         n, out = _word_pool_check()
         for v in out:
             print('%s: %s (expected %s)' % (v['check'], v.get('actual'), v.get('expected')))
+        return not out
+    if str(fi.get('check', '')).startswith('bounded[driver-loop'):
+        n, out = _driver_loop_check('thorough')
+        for v in out:
+            print('%s: %s --transformations %s: %s' % (v['check'], v.get('lang'), v.get('t'), v.get('actual')))
         return not out
     if str(fi.get('check', '')).startswith('bounded[get-types'):
         n, out = _get_types_check()
